@@ -150,6 +150,13 @@ def _mc_c28(v):
                        workers=4, timeout=600, xmx="2g", coverage=False)
         lib.expect_mc_violation(r, f"MC_Relocate Mode=absolute {inv}", {inv})
         refuted.append(inv)
+    r = lib.tlc_mc("MC_Relocate.tla", lib.write_cfg("MC_Relocate_fastpath_ok.cfg", MC_RELOC_CFG.format(mode="fastpath_unrelated_names", ops=5, invs=invs)),
+                   workers=4, timeout=900, xmx="2g", coverage=False)
+    lib.require_mc_ok(r, "MC_Relocate Mode=fastpath_unrelated_names")
+    r = lib.tlc_mc("MC_Relocate.tla", lib.write_cfg("MC_Relocate_fastpath_prefix.cfg", MC_RELOC_CFG.format(mode="fastpath_copy_name_prefixes_original", ops=5, invs=invs)),
+                   workers=4, timeout=900, xmx="2g", coverage=False)
+    lib.expect_mc_violation(r, "MC_Relocate textual-prefix fast path with idx.bak -> idx", {"Confined", "SameResults", "OriginalUntouched"})
+    refuted.append("textual-prefix fast path (copy name prefixes original name)")
     res["refuted"] = refuted
     res["bounds"] = f"2 documents, <= {ops} operations (owner commits/compaction/removal, copy or move, open/search/commit/compact through the copy)"
     return res
